@@ -839,3 +839,92 @@ func TestRegress_C17(t *testing.T) {
 		}
 	}
 }
+
+// TestC17_Concurrent: Parse is a function of its input. A batch of generated well-formed
+// expressions (expected maps from the independent flattener) and malformed ones is parsed by
+// several goroutines at once, every goroutine walking the batch from another offset; each
+// result must be the one the input has on its own: the expected map, or an error and no map.
+func TestC17_Concurrent(t *testing.T) {
+	vk.Rule(ruleExact)
+	rapid.Check(t, func(t *rapid.T) {
+		type item struct {
+			in   string
+			want map[string]string // nil: must be rejected
+		}
+		var batch []item
+		n := rapid.IntRange(8, 40).Draw(t, "batch")
+		for i := 0; i < n; i++ {
+			if rapid.IntRange(0, 4).Draw(t, "malformed?") == 0 {
+				batch = append(batch, item{in: rapid.SampledFrom([]string{"A{a=B{b}}", "A{a=B{b ,}}", "A{x=1,a=B{b[=1}}", "A{a=B{b=}}", "A{", "}", "A{a=\"x}", "A{a=1,,}"}).Draw(t, "bad")})
+				continue
+			}
+			var stat caseStat
+			ast := genNode(t, 1, &stat)
+			if stat.slashEscape && known("C17:string-escape-slash") || stat.rawNewline && known("C17:string-raw-newline") {
+				continue
+			}
+			want := map[string]string{}
+			dup := false
+			flatten(ast, "", want, &dup)
+			in, _ := renderWith(t, ast, fmt.Sprintf("r%d", i))
+			batch = append(batch, item{in: in, want: want})
+		}
+		if len(batch) < 2 {
+			return
+		}
+		G := rapid.SampledFrom([]int{8, 4, 16, 2}).Draw(t, "goroutines")
+		rounds := rapid.SampledFrom([]int{20, 5, 60}).Draw(t, "rounds")
+		errs := make([]string, G)
+		var start, wg sync.WaitGroup
+		start.Add(1)
+		for g := 0; g < G; g++ {
+			wg.Add(1)
+			go func() {
+				defer wg.Done()
+				defer func() {
+					if p := recover(); p != nil && errs[g] == "" {
+						errs[g] = fmt.Sprintf("Parse panicked while other goroutines were parsing too: %v", p)
+					}
+				}()
+				start.Wait()
+				for r := 0; r < rounds && errs[g] == ""; r++ {
+					for k := range batch {
+						it := batch[(k+g*7+r)%len(batch)]
+						m, err := expr.Parse(it.in)
+						switch {
+						case it.want == nil && (err == nil || m != nil):
+							errs[g] = fmt.Sprintf("malformed input %q parsed next to other goroutines: map=%v err=%v, expected an error and no map", it.in, m, err)
+						case it.want != nil && err != nil:
+							errs[g] = fmt.Sprintf("well-formed input %q was rejected while other goroutines were parsing other inputs: %v", it.in, firstLineOf(err))
+						case it.want != nil && !reflect.DeepEqual(m, it.want):
+							errs[g] = fmt.Sprintf("input %q parsed while other goroutines were parsing other inputs gave %v, on its own it gives %v", it.in, m, it.want)
+						}
+						if errs[g] != "" {
+							break
+						}
+					}
+				}
+			}()
+		}
+		start.Done()
+		if done, _ := vk.Within(120*time.Second, wg.Wait); !done {
+			vk.HardFail("c17-concurrent-hang", map[string]any{"batch": len(batch), "goroutines": G}, "C17: concurrent Parse calls on inputs of a few hundred bytes did not all return within 120 s")
+		}
+		vk.EvalN(int64(G * rounds * len(batch)))
+		vk.Class(fmt.Sprintf("concurrent:goroutines=%d", G))
+		vk.NonTrivial(fmt.Sprintf("concurrent/%d/%d/%s", G, len(batch), batch[0].in))
+		for _, e := range errs {
+			if e != "" {
+				t.Fatalf("VERIF-VIOLATION C17: %s", e)
+			}
+		}
+	})
+}
+
+func firstLineOf(err error) string {
+	s := err.Error()
+	if i := strings.IndexByte(s, '\n'); i >= 0 {
+		s = s[:i]
+	}
+	return s
+}
